@@ -1349,8 +1349,8 @@ def run(ctx):
         "(handle_line and callbacks up to the arguments of fstree_add_generic; glob lines excluded), bin/rdsquashfs/src/describe.c (what it prints "
         "before a failure is not modelled, only the class of the failure), lib/common/src/dir_tree.c:sqfs_tree_node_get_path; glibc "
         "major/minor/makedev, printf %o/%u, isspace/isdigit in the C locale",
-        "lib/fstree/src/fstree.c is modelled (Sqfs.QuoteFs) as fstree_from_file.c drives it: ent->flags = 0 (no hard links), names as canonicalize_name "
-        "leaves them; inode numbers, xattr indices and fstree_post_process are not modelled",
+        "lib/fstree/src/fstree.c is modelled (Sqfs.QuoteFs) as fstree_from_file.c drives it: names as canonicalize_name leaves them, hard-link entries "
+        "(`link`) as unresolved leaves; inode numbers, xattr indices and fstree_post_process (hard-link resolution: C07) are not modelled",
         "what happens after the in-memory tree (tree → image) and before describe_tree (image → tree), `rdsquashfs -u` and the contents of files are "
         "not modelled (C01/C06); here they are exercised at tool level only",
     ], assumptions=["entry names contain no LF (the property's quantifier) and no NUL/'/' (cannot occur in an image)",
